@@ -599,6 +599,31 @@ func runScenario(sc scenario) string {
 		case <-time.After(5 * time.Second):
 			util.Fail("C19: a second Stop issued during the shutdown did not return within 5 s")
 		}
+	case "stormstop":
+		// connections keep arriving while the engine shuts down: the acceptor is busy when the listeners go away
+		stormDone := make(chan struct{})
+		var stormConns []net.Conn
+		var stormMu sync.Mutex
+		go func() {
+			defer close(stormDone)
+			for atomic.LoadInt32(&s.returned) == 0 {
+				if c, err := dial(); err == nil && c != nil {
+					stormMu.Lock()
+					stormConns = append(stormConns, c)
+					stormMu.Unlock()
+				}
+				time.Sleep(150 * time.Microsecond)
+			}
+		}()
+		time.Sleep(3 * time.Millisecond)
+		stopRes = errStr(s.eng.Stop(context.Background()))
+		if stopRes == "nil" {
+			complete("Stop returned nil")
+		}
+		<-stormDone
+		stormMu.Lock()
+		peers = append(peers, stormConns...)
+		stormMu.Unlock()
 	case "engstop":
 		stopRes = errStr(s.eng.Stop(context.Background()))
 		if stopRes == "nil" {
@@ -736,7 +761,7 @@ func main() {
 			for i := 0; i < *cases; i++ {
 				m, proto := *only, "tcp"
 				if m == "all" { // client lives of every mode
-					m = []string{"stop", "peerclose", "localclose", "wake", "zone"}[i%5]
+					m = []string{"stop", "peerclose", "localclose", "wake", "zone", "slowtick"}[i%6]
 					if m != "zone" {
 						proto = []string{"tcp", "unix", "udp"}[r.Intn(3)]
 					}
@@ -748,7 +773,7 @@ func main() {
 			fmt.Fprintf(os.Stderr, "DIST %v\n", hist)
 			return
 		}
-		sources := []string{"engstop", "pkgstop", "open", "traffic", "close", "tick", "boot", "ctxexpired", "twice", "regrace", "slowclose", "closetraffic"}
+		sources := []string{"engstop", "pkgstop", "open", "traffic", "close", "tick", "boot", "ctxexpired", "twice", "regrace", "slowclose", "closetraffic", "stormstop"}
 		for i := 0; i < *cases; i++ {
 			src := sources[i%len(sources)]
 			ticker := r.Intn(2)
@@ -763,7 +788,7 @@ func main() {
 			fmt.Fprintf(&b, "case %d\nlife %s %d %d %d %d %s %d %d\n", i, []string{"unix", "tcp", "tcp", "both"}[r.Intn(4)], r.Pick(1, 2, 4), r.Intn(2), ticker, nconn, src, r.Intn(2), r.Intn(3))
 		}
 		// client lives
-		modes := []string{"stop", "peerclose", "localclose", "wake", "zone"}
+		modes := []string{"stop", "peerclose", "localclose", "wake", "zone", "slowtick"}
 		for i := 0; i < *cases/2; i++ {
 			m := modes[i%len(modes)]
 			proto := []string{"tcp", "unix", "udp"}[r.Intn(3)]
